@@ -112,13 +112,13 @@ func (w *z9World) checkManifest(manifest []byte) string {
 	for _, l := range layers {
 		got, err := gos.ReadFile(w.blobFile(l.Digest))
 		if err != nil {
-			return fmt.Sprintf("layer %s (size %d) is missing", l.Digest[:14], l.Size)
+			return fmt.Sprintf("[missing] layer %s (size %d) is missing", l.Digest[:14], l.Size)
 		}
 		if len(got) != l.Size {
-			return fmt.Sprintf("layer %s has size %d, manifest says %d", l.Digest[:14], len(got), l.Size)
+			return fmt.Sprintf("[wrong-size] layer %s has size %d, manifest says %d", l.Digest[:14], len(got), l.Size)
 		}
 		if fmt.Sprintf("sha256:%x", sha256.Sum256(got)) != l.Digest {
-			return fmt.Sprintf("layer %s has the manifest's size %d but its content %x does not hash to its digest (published: %x)", l.Digest[:14], l.Size, got, w.blobs[l.Digest])
+			return fmt.Sprintf("[wrong-content] layer %s has the manifest's size %d but its content %x does not hash to its digest (published: %x)", l.Digest[:14], l.Size, got, w.blobs[l.Digest])
 		}
 	}
 	return ""
@@ -325,7 +325,7 @@ func z9Push(sc z9Scenario, w *z9World, reg *Registry, c *blob.DiskCache) {
 var z9Root string
 
 func z9Scenarios(thorough bool) []z9Scenario {
-	netf := []string{"500", "neterr", "truncate", "flip", "ignore-range"}
+	netf := []string{"500", "neterr", "truncate", "truncate-clean", "flip", "ignore-range"}
 	l := []z9Scenario{
 		{Name: "small-layer", Op: "pull", Layers: []int{3}, Config: 2, MaxStreams: 1, Faults: netf, Faulty: 1},
 		{Name: "chunked-layer", Op: "pull", Layers: []int{12}, MaxStreams: 2, Faults: netf, Faulty: 1},
@@ -370,9 +370,16 @@ type z9Replay struct {
 
 func z9Sig(f string, sc z9Scenario) string {
 	s := strings.TrimPrefix(f, "C09: ")
+	sub := ""
+	for _, k := range []string{"[missing]", "[wrong-size]", "[wrong-content]"} {
+		if strings.Contains(s, k) {
+			sub = "-" + strings.Trim(k, "[]")
+		}
+	}
 	if i := strings.Index(s, ":"); i > 0 {
 		s = s[:i]
 	}
+	s += sub
 	mech := "single-request"
 	for _, n := range sc.Layers {
 		if n >= 8 {
